@@ -29,6 +29,10 @@ def entry_frame(ct: Container, cd: Codecs, rep, rule="entry-frame"):
             if name == "add_block" and not fresh:
                 tests = M.enclosing_tests(ff.f.node, e.stmt)
                 good = any(br and norm(t).replace(" ", "") in (f"{norm(e.entry)}.type==BlockType.unusedSlot", f"BlockType.unusedSlot=={norm(e.entry)}.type") for t, br in tests)
+                if not good:
+                    st_ev = ff.ev("table_store")
+                    pre = M.later_slots_precheck(ct, ff, st_ev[0].index) if st_ev else None
+                    good = pre is not None and ff.cfg.dominates(ff.cfg.node_of(pre), e.node)
                 if good:
                     rep.ok(rule, f"{fq}: only unused slots are re-pointed", nontrivial=True)
                 else:
